@@ -41,6 +41,8 @@ func genTCPConn(r *Rng, cfg []cfgKey, focus string) tcpConnSpec {
 		probeW, postW, dialW = 60, 20, 3
 	case "C02":
 		probeW, postW, dialW = 5, 3, 2
+	case "C18":
+		probeW, postW, dialW = 25, 45, 8
 	}
 	sel := r.Intn(100)
 	if sel < probeW+postW+dialW {
@@ -72,7 +74,13 @@ func genTCPConn(r *Rng, cfg []cfgKey, focus string) tcpConnSpec {
 			sp.Chunks = [][2]int{{20, 5}}
 		}
 	case c < probeW+postW: // authenticated, then invalid
-		if r.Bool() {
+		if focus == "C18" && r.Chance(75) {
+			sp.AKind = []int{9, 20, 21, 22, 23, 24, 25}[r.Intn(7)]
+			sp.Chunks, sp.Coalesce = nil, false
+			if sp.AKind == 22 {
+				sp.ConnectOK = false // the name does not resolve: nothing to connect to
+			}
+		} else if r.Bool() {
 			sp.AKind = 9
 			sp.Chunks, sp.Coalesce = nil, false
 		} else {
